@@ -107,8 +107,9 @@ Definition prec0 (l : N) : prec := {| p_len := l; p_kind := 0; p_addr := repeat 
 
 Inductive rres :=
 | ROk (r : prec)
-| RErrTag          (* "unknown record field tag" *)
-| RBad.            (* the Go code would slice out of range (panic): out of the model *)
+| RErrTag          (* an error return: "unknown record field tag", "journal record field truncated: tag N",
+                      "journal record truncated before checksum" (guards added by /repo 8222028) *)
+| RBad.            (* fuel exhausted / fewer than 4 bytes handed to readJournalRecord: out of the model *)
 
 Section Journal.
   Variable crc : bytes -> N.          (* crc() of table.go *)
@@ -132,29 +133,30 @@ Section Journal.
 
   (* readJournalRecord, the field loop: |buf| is the record after its length field.
      The loop runs while len(buf) > 4; afterwards the checksum is read from buf[:4]
-     (not used again: validateJournalRecord has already compared it). *)
+     (not used again: validateJournalRecord has already compared it).  A field shorter than its size, or
+     fewer than 4 bytes left for the checksum, is an error (guards of /repo commit 8222028). *)
   Fixpoint read_fields (fuel : nat) (buf : bytes) (r : prec) : rres :=
     match fuel with
     | O => RBad
     | S f =>
-      if lenN buf <=? 4 then ROk r
+      if lenN buf <=? 4 then (if lenN buf <? 4 then RErrTag else ROk r)   (* len(buf) < journalRecChecksumSz: error *)
       else match buf with
            | [] => RBad
            | tag :: b1 =>
              if tag =? tag_kind then
                match b1 with
                | k :: b2 => read_fields f b2 {| p_len := p_len r; p_kind := k; p_addr := p_addr r; p_payload := p_payload r; p_ts := p_ts r |}
-               | [] => RBad
+               | [] => RErrTag       (* len(buf) < journalRecKindSz *)
                end
              else if tag =? tag_addr then
                match splitN 20 b1 with
                | Some (a, b2) => read_fields f b2 {| p_len := p_len r; p_kind := p_kind r; p_addr := a; p_payload := p_payload r; p_ts := p_ts r |}
-               | None => RBad        (* buf[journalRecAddrSz:] out of range *)
+               | None => RErrTag     (* len(buf) < journalRecAddrSz *)
                end
              else if tag =? tag_ts then
                match splitN 8 b1 with
                | Some (t, b2) => read_fields f b2 {| p_len := p_len r; p_kind := p_kind r; p_addr := p_addr r; p_payload := p_payload r; p_ts := rd64 t |}
-               | None => RBad
+               | None => RErrTag     (* len(buf) < journalRecTimestampSz *)
                end
              else if tag =? tag_payload then
                match splitN (lenN b1 - 4) b1 with
@@ -337,7 +339,7 @@ Section Journal.
            otherwise ReadAt rejects the negative offset *)
         (if off <=? 9223372036854775808 + woff then (3, 0) else (2, 0))
       else if woff <? off then (3, 0)                       (* wr.buf[off-wr.off:] out of range *)
-      else if len <? 4 then (3, 0)                          (* NewCompressedChunk: len(buff) - checksumSize underflows *)
+      else if len <? 4 then (2, 0)                          (* NewCompressedChunk: shorter than the checksum: "checksum error" (/repo 7d4496d) *)
       else
         let avail := dropN off file in
         let got := match splitN len avail with
